@@ -75,6 +75,8 @@ def run_case(ctx, case):
     if out.kind == "error":
         ctx.violation("unexpected-error", {"op": op, "got": out.brief(), "input": model.brief(v, 400)})
         return
+    if out.value == "" and v == []:
+        out.value = []       # an empty list of strings comes back as an empty character array
     try:
         gout = oracles.groups(out.value, hi, k)
     except Exception as e:
